@@ -80,10 +80,10 @@ def main(inp, outp):
             if sum(1 for v in res["violations"] if v["key"] == key) < 4:
                 res["violations"].append({"key": key, "what": what, "data": data})
 
-    for beh in job["behaviours"]:
+    for bi, beh in enumerate(job["behaviours"]):
         signal.alarm(30)
         try:
-            one(beh, res, clause, kinds)
+            one(beh, res, clause, kinds, bi)
         except Hang:
             clause("every behaviour completes (no conversion runs away)", False, "sv/hang",
                    f"behaviour did not complete within 30 s: {beh['hist']}", {"hist": beh["hist"]})
@@ -94,7 +94,7 @@ def main(inp, outp):
         json.dump(res, fh, default=str)
 
 
-def one(beh, res, clause, kinds):
+def one(beh, res, clause, kinds, bi=0):
     if True:
         hist = beh["hist"]
         o0 = Orbit(KEP, DATE, "keplerian", "EME2000", "Kepler", name="sat", notes=["a", "b"], counter=0)
@@ -113,10 +113,22 @@ def one(beh, res, clause, kinds):
             data = {"hist": hist[:step], "how": "harness/statevector_replay.py replays the actions on real objects"}
             raised = None
             try:
+                # the three doors of copy(): no argument / form= and frame= / same=<an object whose form and frame are to be taken>,
+                # used in turn (the target of same= is a throw-away state of the wanted form and frame)
+                door = (bi + step) % 3
                 if op == "copy":
-                    objs.append(a.copy())
+                    if door == 0:
+                        objs.append(a.copy(same=StateVector(np.asarray(a, float), DATE, a.form, a.frame)))
+                    elif door == 1:
+                        objs.append(a.copy(form=a.form.name, frame=a.frame.name))
+                    else:
+                        objs.append(a.copy())
                 elif op == "copyconv":
-                    objs.append(a.copy(form=act["x"], frame=act["y"]))
+                    if door == 0:
+                        tgt = StateVector(KEP, DATE, "keplerian", "EME2000").copy(form=act["x"], frame=act["y"])
+                        objs.append(a.copy(same=tgt))
+                    else:
+                        objs.append(a.copy(form=act["x"], frame=act["y"]))
                 elif op == "setform":
                     a.form = act["x"]
                 elif op == "setframe":
